@@ -144,7 +144,10 @@ func (r *ring) removeHost(hostID string) bool {
 				break
 			}
 		}
-		delete(r.hostIPToUUID, h.nodeToNodeAddress().String())
+		// the address may have been taken over by another host in the meantime
+		if addr := h.nodeToNodeAddress().String(); r.hostIPToUUID[addr] == hostID {
+			delete(r.hostIPToUUID, addr)
+		}
 	}
 	delete(r.hosts, hostID)
 	r.mu.Unlock()
